@@ -25,7 +25,10 @@ HV = {1: b"v-one", 2: b"v-two", 3: b"v three; q=0.5", 4: b"v\xc3\xa9\\4", 5: b"v
 # body / file tokens: self-delimiting (each ends with ';', none contains another); 4 has a newline, 5 and 7 look like
 # regex group references, 6 is not UTF-8
 BT = {1: b"aa;", 2: b"bb;", 3: b"cc;", 4: b"d\nd;", 5: b"\\1;", 6: b"\xc3\xa9\xff;", 7: b"\\g<0>;"}
-SEG = {1: "alpha", 2: "beta", 3: "gamma", 4: "delta", 5: "eps", 8: "index.html", 9: ".."}
+SEG = {1: "alpha", 2: "beta", 3: "gamma", 4: "delta", 5: "eps", 6: "we%21rd", 8: "index.html", 9: ".."}
+# names on disk: 16 = escaped form of 6 ("we!rd"), 40 + t = escaped form of "<t>?k=v" (capturing-group rules keep the query)
+DISK = {**{k: v for k, v in SEG.items() if k != 6}, 16: "we_rd", 46: "we_rd_k=v",
+        **{40 + k: v + "_k=v" for k, v in {1: "alpha", 2: "beta", 3: "gamma", 4: "delta", 5: "eps", 8: "index.html"}.items()}}
 HOST = {1: "a.example", 2: "b.example", 3: "c.example"}
 METH = {1: "GET", 2: "POST"}
 OPT = {"mh": "modify_headers", "mb": "modify_body", "mr": "map_remote", "ml": "map_local"}
@@ -33,9 +36,9 @@ SEPS = "/|:,#%&=+"
 ALL = ("all", 0, False)
 
 
-def rule(ad, f=ALL, s=(), r=(), file=0, host=0, rhost=0, lp="", bad=""):
+def rule(ad, f=ALL, s=(), r=(), file=0, host=0, rhost=0, lp="", bad="", grp=False):
     return {"ad": ad, "bad": bad, "f": {"t": f[0], "a": f[1], "neg": bool(f[2])}, "s": [list(x) if isinstance(x, (list, tuple)) else x for x in s],
-            "r": list(r), "file": file, "host": host, "rhost": rhost, "lp": lp}
+            "r": list(r), "file": file, "host": host, "rhost": rhost, "lp": lp, "grp": grp}
 
 
 def ffile(c, present=True):
@@ -136,6 +139,8 @@ def render(r, rng) -> str:
     else:  # ml
         path = "".join("/" + SEG[t] for t in r["s"])
         subj = (_rxs(HOST[r["host"]], rng) + path) if r["host"] else _rxs(path, rng)
+        if r.get("grp"):
+            subj += rng.choice(["/(.*)", "/(.+)", "/(.*)$"])
         repl = "{F%d}" % r["file"] if r["lp"] == "file" else "{ROOT}"
     if bad == "regex":
         subj = subj + rng.choice(["(", "[", "(?P<"]) if ad != "mh" else subj
@@ -287,14 +292,15 @@ WM = mkworld(
         rule("ml", ALL, [1], [], lp="dir", bad="parts"),      # 9
         rule("mb", ALL, [[1]], [2, 2]),                       # 10 /aa;/bb;bb;   acts on the local response too
         rule("mh", ("s", 0, False), [1], [1]),                # 11 /~s/X-Alpha/v-one
+        rule("ml", ALL, [1], [], host=1, lp="dir", grp=True), # 12 |a.example/alpha/(.*)|ROOT   group incl. query string
     ],
-    files=[ffile([1, 3]), ffile([2]), ffile([3, 1]), ffile([4, 1]), ffile([1, 1]), ffile([6, 6])],
-    fs=[((2,), 1), ((3, 8), 2), ((8,), 3), ((4, 5), 4)],
+    files=[ffile([1, 3]), ffile([2]), ffile([3, 1]), ffile([4, 1]), ffile([1, 1]), ffile([6, 6]), ffile([2, 3]), ffile([3, 2]), ffile([5])],
+    fs=[((2,), 1), ((3, 8), 2), ((8,), 3), ((4, 5), 4), ((16,), 7), ((46,), 8), ((42,), 9)],
     fkind={}, sibling=6,
 )
-WM_LISTS = [("mr", (1, 2, 3)), ("ml", (4, 5)), ("ml", (6, 7, 5)), ("ml", (5, 9)), ("mb", (10,)), ("mh", (11,))]
+WM_LISTS = [("mr", (1, 2, 3)), ("ml", (4, 5)), ("ml", (6, 7, 5)), ("ml", (12, 5)), ("mb", (10,)), ("mh", (11,))]
 WM_FLOWS = [flow_t(path=[1, 2], query=True), flow_t(meth=2, host=2, path=[2, 3]), flow_t(path=[1, 9, 4]),
-            flow_t(host=3, path=[3]), flow_t(path=[1, 4, 5], qb=[1])]
+            flow_t(host=3, path=[3]), flow_t(path=[1, 4, 5], qb=[1]), flow_t(path=[1, 6], query=True)]
 WM_RESPS = [resp_t(sb=[1, 2])]
 WM_FOPS = [{"f": 1, "present": False, "c": [1, 3]}, {"f": 5, "present": True, "c": [3, 3]}]
 
@@ -344,6 +350,11 @@ def directed():
         (M, [["set", "mr", [1, 2, 3]], ["set", "ml", [4, 5]], ["flow", flow_t(path=[1, 2], query=True)], rh, rq, sh, rs]),
         (M, [["set", "mr", [1, 2, 3]], ["flow", flow_t(meth=2, host=2, path=[2, 3])], rh, rq]),
         (M, [["set", "mr", [2]], ["flow", flow_t(meth=2, path=[2, 1, 2])], rh, rq]),  # every occurrence
+        (M, [["set", "ml", [5, 9]], ["set", "ml", [4, 5]], ["flow", flow_t(path=[1, 6])], rh, rq]),            # special characters
+        (M, [["set", "ml", [12, 5]], ["flow", flow_t(path=[1, 2], query=True)], rh, rq]),                      # group keeps the query
+        (M, [["set", "ml", [12, 5]], ["flow", flow_t(path=[1, 4, 5])], rh, rq]),
+        (M, [["set", "ml", [12]], ["flow", flow_t(path=[1])], rh, rq]),                                        # group needs a rest
+        (M, [["set", "ml", [5, 6]], ["flow", flow_t(path=[1, 4])], rh, rq]),                                   # first rule finds nothing
     ]
     r = random.Random(7)
     for w, ops in out:
@@ -391,7 +402,8 @@ class Check(core.PropertyCheck):
         "taken", "inactive_flow",
         "url_mapped", "url_host", "url_many_rules", "url_nomatch", "ml_sees_mapped_url",
         "ml_served", "ml_404", "ml_nomatch", "ml_file_rule", "ml_index_fallback", "ml_later_rule", "ml_query_ignored",
-        "ml_first_of_many", "ml_traversal",
+        "ml_first_of_many", "ml_traversal", "ml_special_chars", "ml_group", "ml_group_query",
+        "streamed", "set_missing_file", "unreadable_file", "set_invalid_empty",
     )
     REQUIRED_ACTIONS = ("SetOpt", "NewFlow", "HookReqHeaders", "HookRequest", "HookRespHeaders", "HookResponse", "Respond")
     ASSUMPTIONS = (
@@ -488,7 +500,7 @@ class Check(core.PropertyCheck):
         root = base / "root"
         root.mkdir()
         fkind = {int(k): v for k, v in w.get("fkind", {}).items()}
-        inside = {e["f"]: root.joinpath(*[SEG[t] for t in e["p"]]) for e in w["fs"]}
+        inside = {e["f"]: root.joinpath(*[DISK[t] for t in e["p"]]) for e in w["fs"]}
 
         def fpath(i):  # the "sibling" file lies next to the directory under a name a URL can spell
             return inside.get(i) or base / (SEG[4] if i == w.get("sibling") else "f%d" % i)
@@ -598,7 +610,7 @@ def _rand_filter(rng, ad):
 
 def random_scenario(rng):
     nfiles = rng.randint(4, 7)
-    paths = [(2,), (3, 8), (8,), (4, 5), (1,), (5, 8), (3, 3), (1, 2, 8)]
+    paths = [(2,), (3, 8), (8,), (4, 5), (1,), (5, 8), (3, 3), (1, 2, 8), (16,), (42,), (46,), (3, 16), (4, 43), (16, 8)]
     rng.shuffle(paths)
     tree = []
     for p in paths:
@@ -647,7 +659,7 @@ def random_scenario(rng):
             if rng.random() < 0.25 and mlfiles:
                 rules.append(rule("ml", f, s, [], host=h, lp="file", file=rng.choice(mlfiles), bad=bad))
             else:
-                rules.append(rule("ml", f, s, [], host=h, lp="dir", bad=bad))
+                rules.append(rule("ml", f, s, [], host=h, lp="dir", bad=bad, grp=rng.random() < 0.3))
     w = mkworld(rules, [dict(f) for f in files], fs, fkind, sibling=mbfile)
     by_ad = {a: [i + 1 for i, r in enumerate(rules) if r["ad"] == a] for a in OPT}
     ops = []
@@ -683,7 +695,7 @@ def random_scenario(rng):
     for _ in range(rng.randint(1, 4)):
         maybe_set(0.35)
         maybe_file(0.3)
-        path = [rng.choice([1, 2, 3, 4, 5, 5, 8]) for _ in range(rng.randint(1, 4))]
+        path = [rng.choice([1, 2, 3, 4, 5, 5, 8, 6]) for _ in range(rng.randint(1, 4))]
         if rng.random() < 0.12:
             path[rng.randint(1, len(path)):] = [9, 4] if rng.random() < 0.6 else [9, rng.randint(1, 5)]
         qs, ss = rng.random() < 0.07, rng.random() < 0.07
